@@ -139,7 +139,13 @@ func (sg *Getter) GetSamples(
 				if samples[i].IsEmpty() {
 					return errors.New("nil response")
 				}
-				return samples[i].Verify(header.DAH, request.RowIndex, request.ShareIndex)
+				err := samples[i].Verify(header.DAH, request.RowIndex, request.ShareIndex)
+				if err != nil {
+					// samples are returned to the caller even on error, so a sample
+					// that failed verification must not stay in the result
+					samples[i] = shwap.Sample{}
+				}
+				return err
 			}
 			return sg.executeRequest(ctx, logger, header, request.Name(), req, verify)
 		})
@@ -192,7 +198,12 @@ func (sg *Getter) GetRow(ctx context.Context, header *header.ExtendedHeader, row
 		if response.IsEmpty() {
 			return errors.New("nil response")
 		}
-		return response.Verify(header.DAH, rowIndex)
+		err := response.Verify(header.DAH, rowIndex)
+		if err != nil {
+			// drop the unverified data, so the next attempt decodes into a clean container
+			response = shwap.Row{}
+		}
+		return err
 	}
 
 	err = sg.executeRequest(ctx, logger, header, request.Name(), req, verify)
@@ -299,7 +310,12 @@ func (sg *Getter) GetNamespaceData(
 		if response.IsEmpty() {
 			return errors.New("nil response")
 		}
-		return response.Verify(dah, namespace)
+		err := response.Verify(dah, namespace)
+		if err != nil {
+			// drop the unverified data, so the next attempt decodes into a clean container
+			response = shwap.NamespaceData{}
+		}
+		return err
 	}
 
 	err = sg.executeRequest(ctx, logger, header, request.Name(), req, verify)
@@ -369,11 +385,18 @@ func (sg *Getter) GetRangeNamespaceData(
 			return err
 		}
 
-		return response.VerifyInclusion(
+		err = response.VerifyInclusion(
 			fromCoords,
 			toCoords,
 			len(header.DAH.RowRoots)/2,
 			header.DAH.RowRoots[fromCoords.Row:toCoords.Row+1])
+		if err != nil {
+			// drop the unverified data, so the next attempt decodes into a clean container:
+			// ReadFrom keeps a last row proof of a previous multi-row response otherwise,
+			// which makes a correct single-row response of the next peer fail
+			response = shwap.RangeNamespaceData{}
+		}
+		return err
 	}
 
 	err = sg.executeRequest(ctx, logger, header, request.Name(), req, verify)
